@@ -1,0 +1,26 @@
+//go:build verif
+
+package redis
+
+import (
+	"crypto/tls"
+	"net"
+	"sort"
+)
+
+// VerifServeConn serves one caller-supplied connection synchronously through
+// the real connection loop, on the caller's goroutine (verification hook H1).
+func (server *Server) VerifServeConn(c net.Conn, tlsState *tls.ConnectionState) error {
+	return server.receive(c, tlsState)
+}
+
+// VerifCommands returns the sorted names of all registered executors
+// (verification hook H3, used as a coverage cross-check only).
+func (server *Server) VerifCommands() []string {
+	names := make([]string, 0, len(server.commandExecutors))
+	for name := range server.commandExecutors {
+		names = append(names, name)
+	}
+	sort.Strings(names)
+	return names
+}
